@@ -60,6 +60,7 @@ impl<T: Ord> CmRDT for GSet<T> {
     open spec fn cm_inv(&self) -> bool { true }
     open spec fn cm_pre(&self, op: &T) -> bool { true }
     open spec fn cm_post(old_: &Self, op: &T, new_: &Self) -> bool { true }
+    open spec fn cm_vpre(&self, op: &T) -> bool { true }
 
 //@extract fn src/gset.rs "CmRDT for GSet" validate_op
     fn validate_op(&self, _op: &Self::Op) -> /*@ (r: @*/ Result<(), Self::Validation> /*@ ) @*/
